@@ -185,10 +185,14 @@ class Check:
             cmd += "".join(" --bin %s" % b for b in bins)
         rc, out = sh(cmd, cwd=hdir, timeout=1800, env={"RUSTFLAGS": "--cfg duckscript_verif"})
         if rc != 0:
-            # a tree that does not compile is not a property violation; report and stop
+            # the tie to the code cannot be established on this tree (the repository does not compile, or its public API
+            # changed under the harness): the property is not shown to hold - reported in the prescribed form
             print(out[-3000:])
             print("ERROR: harness does not build against /repo's current tree")
-            sys.exit(2)
+            self.broken.append("harness does not build against the current tree: " + " ".join(out.strip().splitlines()[-6:])[-400:])
+            self.violation({"property": self.prop, "kind": "the correspondence harness does not build against /repo's current tree",
+                            "cargo_output_tail": out[-3000:], "broken_obligations": self.broken}, "no-failing-input-found")
+            self.finish()
         return True
 
     def print_assumptions(self, requires, names):
